@@ -476,6 +476,162 @@ def _r2_layout(model, rep):
     _generic_propagation(model, rep)
 
 
+def _line_uniform(model, rep):
+    """Symbolic run of MeshLine1._uniform: the children are interleaved
+    (cell k becomes cells 2k and 2k + 1), written by strided stores."""
+    from ..refcell import ARange
+    R3 = "C12-R3"
+    cls = model.cls("skfem.mesh.mesh_line_1", "MeshLine1")
+    fn = cls.methods.get("_uniform")
+    if fn is None:
+        raise AnalysisError("MeshLine1._uniform not found")
+    q = "MeshLine1._uniform"
+    NP, NTL = Poly.sym("npoints"), Poly.sym("ncells")
+    cap: Dict[str, Any] = {}
+
+    class End:
+        skv_isarray = True
+
+        def __init__(self, k):
+            self.k = k
+
+        def __repr__(self):
+            return f"vertex {self.k} of the cells"
+
+    class Mid:
+        skv_isarray = True
+
+        def __init__(self, what):
+            self.what = what
+
+        def skv_getattr(self, name):
+            if name == "mean":
+                def mean(a, k, n):
+                    return Mid(f"mean{a[0] if a else k.get('axis')}")
+                return PyFunc(mean)
+            raise Unsupported("points." + name)
+
+    class T:
+        skv_isarray = True
+
+        def skv_getitem(self, ix):
+            if ix in (0, 1):
+                return End(ix)
+            raise Unsupported(f"t index {ix!r}")
+
+        def skv_getattr(self, name):
+            if name == "shape":
+                return (2, NTL)
+            if name == "dtype":
+                return "int"
+            raise Unsupported("t." + name)
+
+    the_t = T()
+
+    class P:
+        skv_isarray = True
+
+        def skv_getitem(self, ix):
+            if isinstance(ix, tuple) and len(ix) == 2 and \
+                    ix[0] == slice(None) and ix[1] is the_t:
+                return Mid("verts")
+            raise Unsupported(f"p index {ix!r}")
+
+        def skv_getattr(self, name):
+            if name == "shape":
+                return (1, NP)
+            raise Unsupported("p." + name)
+
+    the_p = P()
+
+    class Buf:
+        skv_isarray = True
+
+        def __init__(self, shape):
+            self.shape, self.st = shape, {}
+
+        @staticmethod
+        def key(ix):
+            if isinstance(ix, tuple) and len(ix) == 2 and ix[0] in (0, 1) \
+                    and isinstance(ix[1], slice) and ix[1].step == 2 and \
+                    ix[1].stop is None and ix[1].start in (None, 0, 1):
+                return (ix[0], ix[1].start or 0)
+            raise Unsupported(f"store/read {ix!r} in the new connectivity")
+
+        def skv_setitem(self, ix, v):
+            self.st[self.key(ix)] = v
+
+        def skv_getitem(self, ix):
+            k = self.key(ix)
+            if k not in self.st:
+                raise Unsupported("read of an unwritten part")
+            return self.st[k]
+
+    def hook(interp, name, args, kwargs, node):
+        if name in ("numpy.max", "numpy.amax") and args[0] is the_t:
+            # largest vertex number in use - not the number of stored points
+            return Poly.sym("maxt")
+        if name == "numpy.arange":
+            a = [Poly.coerce(x) for x in args]
+            return ARange(a[0], a[1]) if len(a) == 2 else ARange(Poly(), a[0])
+        if name == "numpy.hstack":
+            cap["newp"] = list(args[0])
+            return ("points",)
+        if name in ("numpy.empty", "numpy.zeros"):
+            b = Buf(tuple(args[0]))
+            cap.setdefault("bufs", []).append(b)
+            return b
+        if name.endswith("replace"):
+            cap["replace"] = kwargs
+            return ("mesh",)
+        return NotImplemented
+    obj = Obj(cls, {"doflocs": the_p, "t": the_t, "_subdomains": None,
+                    "_boundaries": None})
+    it = Interp(model, call_hook=hook)
+    try:
+        it.call(fn, [], {}, self_obj=obj)
+    except (Unsupported, Raised) as e:
+        raise AnalysisError(f"{q} outside grammar: {e}")
+    kw = cap.get("replace")
+    if not kw or not isinstance(kw.get("t"), Buf) or "newp" not in cap:
+        raise AnalysisError(f"{q}: new points / connectivity not recognised")
+    newp, b = cap["newp"], kw["t"]
+    okp = (len(newp) == 2 and newp[0] is the_p and isinstance(newp[1], Mid)
+           and newp[1].what == "mean1")
+    if okp:
+        rep.ok(R3, "MeshLine1:new-points", "old points keep their indices; "
+               "point npoints + k is the midpoint of cell k")
+    else:
+        rep.fail(R3, fn.path, q, "MeshLine1:new-points",
+                 "the appended points are not the cell midpoints (mean over "
+                 "the vertex axis) in cell order", fn.lineno)
+
+    def end(v):
+        if isinstance(v, End):
+            return f"v{v.k}"
+        if isinstance(v, ARange):
+            if v.lo == NP and v.hi == NP + NTL:
+                return "mid"
+            return f"arange({v.lo}, {v.hi})"
+        return repr(v)
+    shape_ok = tuple(Poly.coerce(x) for x in b.shape) == (Poly.coerce(2),
+                                                          2 * NTL)
+    got = {k: end(v) for k, v in b.st.items()}
+    want = {(0, 0): "v0", (1, 0): "mid", (0, 1): "mid", (1, 1): "v1"}
+    if shape_ok and got == want:
+        rep.ok(R3, "MeshLine1:children", "cell k = [a, b] becomes cells 2k = "
+               "[a, m] and 2k + 1 = [m, b] with m = point npoints + k, its "
+               "own midpoint")
+    else:
+        rep.fail(R3, fn.path, q, "MeshLine1:children",
+                 f"new connectivity of shape {b.shape}: (vertex row, child) "
+                 f"-> {got}; expected {want} where 'mid' is "
+                 f"arange(npoints, npoints + ncells), the positions at which "
+                 f"the midpoints are appended (max(t) + 1 is smaller when "
+                 f"the mesh stores points beyond its largest vertex number)",
+                 fn.lineno)
+
+
 def _last_writer(rep, rule, clsname, fn):
     """The parent-facet -> child-facet table is filled by vectorised stores
     ``table[row, t2f[slot]] = ...`` over all cells at once.  An interior
@@ -747,6 +903,7 @@ def run(model: Model, rep, tier: str) -> None:
             _tet_table(model, rep, modname, clsname, refdoms[rdn])
         if clsname in ("MeshTri1", "MeshQuad1"):
             _last_writer(rep, "C12-R3", clsname, fn)
+    _line_uniform(model, rep)
     _r4_warnings(model, rep)
     rep.require_min("C12-R1", 10)
     rep.require_min("C12-R2", 5)
@@ -760,6 +917,13 @@ _TE = "skfem/mesh/mesh_tet_1.py"
 _LI = "skfem/mesh/mesh_line_1.py"
 _ME = "skfem/mesh/mesh.py"
 MUTANTS = [
+    ("line refinement numbers the midpoints from max(t) + 1",
+     (_LI, "        newt[0, 1::2] = p.shape[1] + np.arange(t.shape[1])",
+      "        newt[0, 1::2] = np.max(t) + 1 + np.arange(t.shape[1])"),
+     "C12-R3"),
+    ("line refinement pairs the right halves with the left end",
+     (_LI, "        newt[1, 1::2] = t[1]", "        newt[1, 1::2] = t[0]"),
+     "C12-R3"),
     ("generic subdomain propagation restarts from the original tags",
      ("skfem/mesh/mesh.py", "                            for name, ixs in "
       "m._subdomains.items()", "                            for name, ixs in "
